@@ -93,6 +93,18 @@ func InstallFaults(f *Fed, faults []FaultSpec, barrier int) *FaultLog {
 						}
 						data, _ := Exec(s.Schema, s.Store, doc, in.OperationName, in.Variables)
 						return data, graphql.ErrorList{&graphql.Error{Message: "injected-with-data"}}, true
+					case "join-drop-id", "join-retype", "join-scalar":
+						// the real answer, malformed exactly where a dependent step joins
+						doc, errs := gqlparser.LoadQuery(s.Schema, in.Query)
+						if errs != nil {
+							return nil, nil, false
+						}
+						data, _ := Exec(s.Schema, s.Store, doc, in.OperationName, in.Variables)
+						if malformAt(data, fs.Path, fs.Kind, !isRootCall(in)) {
+							fl.Shapes++
+							return data, nil, true
+						}
+						return nil, nil, false
 					case "node-null":
 						fl.Shapes++
 						return map[string]interface{}{"node": nil}, nil, true
@@ -118,4 +130,84 @@ func (s *Service) callsIsRoot(in *graphql.QueryInput) string {
 		return ""
 	}
 	return "root"
+}
+
+func isRootCall(in *graphql.QueryInput) bool {
+	_, has := in.Variables["id"]
+	return !has
+}
+
+// malformAt walks path through data (first non-null entry of every list on the way) and malforms the value found
+// under the last key: join-drop-id removes the id of the object (of the first object of a list); join-retype puts a
+// one-element list (without id) where an object is and the first entry where a list is; join-scalar puts a scalar
+// where an object is and as the first entry where a list is. Reports whether anything was changed.
+func malformAt(data map[string]interface{}, path []string, kind string, underNode bool) bool {
+	var cur interface{} = data
+	if underNode {
+		cur = data["node"]
+	}
+	if len(path) == 0 {
+		return false
+	}
+	for i, key := range path {
+		for {
+			l, ok := cur.([]interface{})
+			if !ok {
+				break
+			}
+			cur = nil
+			for _, e := range l {
+				if e != nil {
+					cur = e
+					break
+				}
+			}
+		}
+		obj, ok := cur.(map[string]interface{})
+		if !ok {
+			return false
+		}
+		if i < len(path)-1 {
+			cur = obj[key]
+			continue
+		}
+		switch t := obj[key].(type) {
+		case map[string]interface{}:
+			switch kind {
+			case "join-drop-id":
+				if _, has := t["id"]; !has {
+					return false
+				}
+				delete(t, "id")
+			case "join-retype":
+				delete(t, "id")
+				obj[key] = []interface{}{t}
+			case "join-scalar":
+				obj[key] = "x"
+			}
+			return true
+		case []interface{}:
+			first := -1
+			for j, e := range t {
+				if _, ok := e.(map[string]interface{}); ok {
+					first = j
+					break
+				}
+			}
+			if first < 0 {
+				return false
+			}
+			switch kind {
+			case "join-drop-id":
+				delete(t[first].(map[string]interface{}), "id")
+			case "join-retype":
+				obj[key] = t[first]
+			case "join-scalar":
+				t[first] = 3
+			}
+			return true
+		}
+		return false
+	}
+	return false
 }
